@@ -157,6 +157,7 @@ def jobs(tier, seed):
             js.append(dict(kind='subsets', subsets=allsub[i:i + 256]))
     for e in E2E:
         js.append(dict(kind='e2e', name=e))
+        js.append(dict(kind='e2e', name=e + '+robots'))
     if seed:
         k = seed % len(js)
         js = js[k:] + js[:k]
@@ -346,15 +347,32 @@ E2E = {
 def run_e2e(name, chooser):
     from vt.appharn import AppRun
     from vt.checks import c01
-    argv_o, ro, code, strong = E2E[name]
+    robots = name.endswith('+robots')
+    argv_o, ro, code, strong = E2E[name.split('+')[0]]
     site = _site(code)
     starts = ['http://a.test/dir/index.html']
-    argv = starts + argv_o + ['--no-robots', '--delete-after', '--waitretry', '0']
+    argv = starts + argv_o + ['--delete-after', '--waitretry', '0']
+    if robots:
+        # robots checking on, every origin allows everything: the only extra requests
+        # permitted are /robots.txt of origins that are actually being visited
+        for pages in site['hosts'].values():
+            pages['/robots.txt'] = {'body': 'User-agent: *\nDisallow:\n',
+                                    'ctype': 'text/plain'}
+    else:
+        argv.append('--no-robots')
     out = AppRun(site, argv, chooser, early=False).run()
+    reqs = [(q['headers'].get('host'), q['target']) for q in out['requests']]
+    if robots:
+        visited = {q['headers'].get('host') for q in out['requests']
+                   if q['target'] != '/robots.txt'}
+        for q in out['requests']:
+            if q['target'] == '/robots.txt' and q['headers'].get('host') not in visited:
+                return ('robots.txt requested from %s, an origin no in-scope URL was '
+                        'requested from' % q['headers'].get('host')), reqs
+        out['requests'] = [q for q in out['requests'] if q['target'] != '/robots.txt']
     ro = dict(c01.ref_opts(ro))
     ro['strong_redirects'] = strong
     v = c01.judge(site, starts, ro, 1, out)
-    reqs = [(q['headers'].get('host'), q['target']) for q in out['requests']]
     return v, reqs
 
 
